@@ -1,5 +1,23 @@
-"""Model side of the batcher checks (Batcher.tla)."""
+"""Model side of the batcher checks: exhaustive TLC runs of specs/batcher/Batcher.tla (timed, with the
+contract monitor composed in)."""
+
+ACTIONS = ['Arrive', 'Answer', 'DoForget', 'AsmTake', 'AsmTimeout', 'BatchStart', 'DoYield', 'DoEnd', 'Tick']
+
+PLAN = {
+    'C04': {'quick': [('B_aab_r0', None), ('B_abc_c2', None), ('W_NeverTwoBatches', 'NeverTwoBatches')],
+            'thorough': [('B_aab_r0', None), ('B_abc_c2', None), ('B_aab_r3', None), ('W_NeverTwoBatches', 'NeverTwoBatches')]},
+    'C09': {'quick': [('B_aab_cancel', None), ('W_D4', 'Inv_C09')],
+            'thorough': [('B_aab_cancel', None), ('B_aab_r0', None), ('W_D4', 'Inv_C09')]},
+    'C10': {'quick': [('B_abc_c2', None), ('W_NeverFull', 'NeverFull'), ('W_NeverTwoBatches', 'NeverTwoBatches')],
+            'thorough': [('B_abc_c2', None), ('B_aab_r0', None), ('B_aab_r3', None), ('W_NeverFull', 'NeverFull')]},
+    'C11': {'quick': [('B_aab_r0', None), ('W_NeverJoins', 'NeverJoins')],
+            'thorough': [('B_aab_r0', None), ('B_aab_r3', None), ('W_NeverJoins', 'NeverJoins')]},
+}
 
 
 def model_check(ctx):
-    pass
+    for cfg, expect in PLAN[ctx.prop][ctx.tier]:
+        if expect:
+            ctx.mc('batcher', 'MC_Batcher', cfg + '.cfg', expect_violation=expect, timeout=300)
+        else:
+            ctx.mc('batcher', 'MC_Batcher', cfg + '.cfg', timeout=2400, require_actions=ACTIONS)
